@@ -70,7 +70,16 @@ def main(tier):
     nsh = min(8, common.NCPU) if tier == "quick" else common.NCPU
     if ctx.focus() is not None:
         nsh = 2
-    results, inconc = common.run_shards("c14", nsh, args=[tier])
+    # string-hash order must not matter (hooks that iterate sets of keys): the whole forced workload
+    # runs under several hash seeds
+    seeds = ["0", "11", "19", str(1 + common.seed() % 97 * 7)] if tier == "quick" else ["0", "11", "12", "19", "23", "101", "4242", str(1 + common.seed() % 97 * 7)]
+    results, inconc = [], []
+    from concurrent.futures import ThreadPoolExecutor
+
+    with ThreadPoolExecutor(len(seeds)) as ex:
+        for rs, ic in ex.map(lambda hs: common.run_shards("c14", max(2, nsh // 2), args=[tier], extra_env={"PYTHONHASHSEED": hs, "VERIF_FIXED_HASHSEED": "1"}), seeds):
+            results += rs
+            inconc += ic
     for r in inconc:
         rep.inconc(r)
     pairs, sites, fired, names, samples = set(), set(), set(), [], []
@@ -105,6 +114,7 @@ def main(tier):
         "hooks_py_lines_executed": len(all_lines & hit),
         "hooks_py_lines_never_executed": never[:80],
         "hooks_never_fired": [nm for x, nm in enumerate(names) if x not in fired],
+        "hash_seeds": seeds,
         "not_observable": "partialResult unions have no Python position (ProgressParams.value is LSPAny)",
         "exhaustive": True,
         "samples": samples or [{}],
